@@ -1,7 +1,7 @@
 #!/usr/bin/env python3
 import re,sys
 last={}
-for l in open('/verif/tmp/seedres.txt'):
+for l in open('/verif/tmp/seedres.txt', errors='replace'):
     sid=l.split()[0]
     m=re.search(r'violations=(\d+)',l)
     conf='confirmed=yes' in l or 'retry' in l
